@@ -66,6 +66,14 @@ def r12_handles(r, facts):
         r.inst('munmap in %s' % g.path, g.where(loc))
         # the constructors may unmap what they mapped themselves on their error paths (pairing is C18.R2), directly or in a clean-up closure
         ctor = any(g.path == c or g.path.startswith(c + '::{closure') for c in ('io_uring::Shared::new', 'io_uring::cq::Completions::new'))
+        if not (g.path in allowed or ctor):
+            # a clean-up guard type (`UnmapOnDrop`) that only the constructors create: its Drop is their error path
+            m_ = re.match(r'^<(.+) as std::ops::Drop>::drop$', g.path)
+            if m_:
+                ty_ = m_.group(1)
+                made = [h.path for h in facts.func_list for _, s_ in h.assigns(cleanup=True) if s_['rv']['k'] == 'agg' and (s_['rv'].get('adt') or '') == ty_]
+                held = [a_['path'] for a_ in facts.adts.values() for v_ in a_['variants'] for fl_ in v_['fields'] if re.search(r'(^|[<\s(,])%s($|[>,)\s])' % re.escape(ty_), fl_['ty'])]
+                ctor = bool(made) and not held and all(any(p_ == c or p_.startswith(c + '::{closure') for c in ('io_uring::Shared::new', 'io_uring::cq::Completions::new')) for p_ in made)
         r.require(g.path in allowed or ctor, 'munmap:%s' % g.path, 'the ring memory is unmapped outside the owning Drop impls / constructor error paths', g.where(loc))
     for g, loc, t in facts.callers.get('libc::munmap', []):
         r.require(g.path == 'io_uring::munmap', 'libc-munmap:%s' % g.path, 'raw libc::munmap outside the io_uring::munmap wrapper', g.where(loc))
